@@ -274,3 +274,13 @@ func Settle(workers ...*vrt.Thread) {
 		vrt.Failf("deadlock/"+lw.Kind, "thread %s blocked on %s at quiescence", lw.Thread, lw.Label)
 	}
 }
+
+// LogTaps writes the frames of both directions to the trace (replay mode).
+func (c *Conn) LogTaps(name string) {
+	for _, f := range c.Out.Frames {
+		vrt.Logf("tap %s out step=%d %v payload=%x", name, f.Step, f.Hdr, f.Payload)
+	}
+	for _, f := range c.In.Frames {
+		vrt.Logf("tap %s in  step=%d %v payload=%x", name, f.Step, f.Hdr, f.Payload)
+	}
+}
